@@ -77,5 +77,23 @@ Interleaved == {CaseOf("C16/interleaved/" \o t1 \o "-" \o a \o "-" \o t2 \o "-" 
                        \o <<Func("fa", <<Param("n", "int")>>, <<>>, StructN(a, "fa", "n"))>> \o Struct(t2, "tb", "g")
                        \o <<Func("fb", <<Param("n", "int")>>, <<>>, StructN(b, "fb", "n")), ExprS(CallE("fa", <<I(1)>>)), ExprS(CallE("fb", <<I(2)>>))>> \o Struct("if", "tc", "g") \o <<L("end")>>)
                 : t1 \in Structs, a \in Structs \cup {"none"}, t2 \in Structs, b \in {"none", "ifif"}}
-ASSUME ndJsonSerialize("fam.ndjson", SetToSeq(Empty \cup DeepCases \cup FuncCases \cup Builtins \cup Shapes \cup LabelCases \cup Interleaved))
+\* every construct that needs a helper routine or start code, ALONE in a program (nothing else requests the same helper), at top level, inside a
+\* function and in the else branch of a function: a helper is contained exactly when it is called, whoever asks for it
+Alone == <<<<"copystmt", <<Def1("d", SliceLit("int", <<>>)), Def1("s", SliceLit("int", <<I(1)>>)), ExprS(CopyE("d", Var("s")))>>>>,
+           <<"copyused", <<Def1("d", SliceLit("int", <<>>)), Def1("s", SliceLit("int", <<I(1)>>)), Def1("n", CopyE("d", Var("s")))>>>>,
+           <<"lenslice", <<Def1("s", SliceLit("int", <<I(1)>>)), Def1("n", LenE(Var("s")))>>>>, <<"lenstring", <<Def1("t", StrL("abc")), Def1("n", LenE(Var("t")))>>>>,
+           <<"setidx", <<Def1("s", SliceLit("int", <<I(1)>>)), SetIdx("s", I(3), I(2))>>>>, <<"index", <<Def1("s", SliceLit("int", <<I(1)>>)), Def1("e", IndexE(Var("s"), I(0)))>>>>,
+           <<"slicelit", <<Def1("s", SliceLit("string", <<StrL("a"), StrL("b")>>))>>>>, <<"emptyslice", <<VarDef(<<"s">>, "[]bool", <<>>)>>>>,
+           <<"rangeslice", <<Def1("s", SliceLit("int", <<I(1)>>)), RangeS("i", "v", Var("s"), <<Def1("w", Var("v"))>>)>>>>, <<"rangestring", <<Def1("t", StrL("ab")), RangeS("i", "c", Var("t"), <<Def1("w", Var("c"))>>)>>>>,
+           <<"substr", <<Def1("t", StrL("abc")), Def1("u", Substr(Var("t"), I(1), I(2)))>>>>, <<"charat", <<Def1("t", StrL("abc")), Def1("u", IndexE(Var("t"), I(1)))>>>>,
+           <<"strcmp", <<Def1("t", StrL("abc")), Def1("q", CmpE("==", Var("t"), StrL("x")))>>>>, <<"concat", <<Def1("t", StrL("abc")), Def1("u", Bin("+", Var("t"), Var("t")))>>>>,
+           <<"print", <<Print1(I(1))>>>>, <<"printstr", <<Print1(StrL("a b"))>>>>, <<"itoa", <<Def1("u", Itoa(I(5)))>>>>, <<"input", <<Def1("u", Input(NoneN))>>>>, <<"inputprompt", <<Def1("u", Input(StrL("name")))>>>>,
+           <<"read", <<Def1("u", ReadE(StrL("f.txt")))>>>>, <<"write", <<WriteS(StrL("f.txt"), StrL("x"))>>>>, <<"append", <<WriteA(StrL("f.txt"), StrL("x"), T)>>>>, <<"exists", <<Def1("q", ExistsE(StrL("f.txt")))>>>>,
+           <<"appstmt", <<ExprS(App(<<Stage("pa", <<StrL("x")>>)>>))>>>>, <<"appcap", <<Def(<<"o", "e", "c">>, <<App(<<Stage("pa", <<StrL("x")>>), Stage("pb", <<>>)>>)>>)>>>>,
+           <<"panic", <<PanicS(StrL("stop"))>>>>, <<"arith", <<Def1("n", Bin("%", Bin("+", I(7), I(5)), I(4)))>>>>, <<"nothing", <<Def1("n", I(1))>>>>, <<"multiassign", <<Def(<<"a", "b">>, <<I(1), I(2)>>), Asg(<<"a", "b">>, <<Var("b"), Var("a")>>)>>>>>>
+AlonePlace(pl, ss) == CASE pl = "top" -> ss [] pl = "func" -> <<Func("f", <<>>, <<>>, ss), ExprS(CallE("f", <<>>))>>
+                        [] pl = "funcelse" -> <<Func("f", <<Param("c", "bool")>>, <<>>, <<IfElse(Var("c"), <<Def1("z", I(0))>>, ss)>>), ExprS(CallE("f", <<BoolL(FALSE)>>))>>
+                        [] pl = "loop" -> <<For3(Def1("k", I(0)), CmpE("<", Var("k"), I(1)), Inc("k"), ss)>>
+AloneCases == {CaseOf("C16/alone/" \o Alone[i][1] \o "/" \o pl, AlonePlace(pl, Alone[i][2])) : i \in 1..Len(Alone), pl \in {"top", "func", "funcelse", "loop"}}
+ASSUME ndJsonSerialize("fam.ndjson", SetToSeq(AloneCases \cup Empty \cup DeepCases \cup FuncCases \cup Builtins \cup Shapes \cup LabelCases \cup Interleaved))
 =============================================================================
